@@ -1688,8 +1688,9 @@ class GroupBy:
                 values=_val_to_numpy(val_arr)[indexer],
                 alpha=alpha,
                 halflife=halflife,
-                times=None if times is None else times[indexer],
-                mask=None if mask is None else mask[indexer],
+                # positional re-ordering (a pandas Series would index by label)
+                times=None if times is None else np.asarray(times)[indexer],
+                mask=None if mask is None else np.asarray(mask)[indexer],
             )
             .args
             for val_arr in value_list
